@@ -341,10 +341,22 @@ pub fn run_c04(tier: Tier) -> ! {
 // C07
 
 /// Fault-free continuation from the state reached by `acts`.
+thread_local! { static C07_LAST_K: std::cell::Cell<u32> = std::cell::Cell::new(0); }
+pub static C07_MAX_STEPS: std::sync::atomic::AtomicU64 = std::sync::atomic::AtomicU64::new(0);
+#[allow(clippy::declare_interior_mutable_const)]
+const Z: std::sync::atomic::AtomicU64 = std::sync::atomic::AtomicU64::new(0);
+pub static C07_MAX_BY_RETRY: [std::sync::atomic::AtomicU64; 16] = [Z; 16];
+pub static C07_MAX_RETURN_BY_RETRY: [std::sync::atomic::AtomicU64; 16] = [Z; 16];
+pub static C07_MAX_CYCLES_BY_RETRY: [std::sync::atomic::AtomicU64; 16] = [Z; 16];
+pub static C07_MAX_RETURN_CYCLES_BY_RETRY: [std::sync::atomic::AtomicU64; 16] = [Z; 16];
+
 pub fn c07_continuation(cfg: &Arc<W4Cfg>, acts: &[Act]) -> Result<u32, (String, String)> {
     let n = cfg.rig.periphs.len();
     let max_retry = cfg.rig.max_retry as u32;
-    let budget = (n as u32) * (12 + 4 * (max_retry + 1));
+    // one full retry run that may still have to fail (max_retry+1 transmissions) plus offline probe,
+    // diagnostics, Set_Prm, Chk_Cfg, diagnostics, Data_Exchange and three requests of slack, per peripheral:
+    // in a fault-free continuation nothing else can cost a request (measured: max_retry + 5)
+    let budget = (n as u32) * ((max_retry + 1) + 8);
     let mut e = run_path(cfg, acts);
     if e.dead {
         return Ok(0);
@@ -352,6 +364,12 @@ pub fn c07_continuation(cfg: &Arc<W4Cfg>, acts: &[Act]) -> Result<u32, (String, 
     let start_dx: Vec<u32> = e.dx_events.clone();
     let mut steps = 0;
     let mut ok_at = None;
+    // the same bound in DP cycles ('cycle completed' reports): every cycle gives every peripheral one turn, so
+    // the number of peripherals does not enter; an offline peripheral that sits out cycles shows here and not
+    // in the request count
+    let cycles0 = e.mon.cycles_completed;
+    // (+4: a conforming slave may report 'station not ready' for a few diagnostics rounds)
+    let cycle_bound = (max_retry + 1) + 12;
     while steps < budget + 3 * n as u32 + 3 {
         e.apply(Act::Answer);
         steps += 1;
@@ -367,12 +385,20 @@ pub fn c07_continuation(cfg: &Arc<W4Cfg>, acts: &[Act]) -> Result<u32, (String, 
         let all = (0..n).filter(|i| present(*i)).all(|i| e.rig.periph(i).is_running() && e.dx_events[i] > start_dx[i] && e.slaves[i].state == crate::dprig::SlaveState::DataExch);
         if all && ok_at.is_none() {
             ok_at = Some(steps);
+            C07_MAX_CYCLES_BY_RETRY[(max_retry as usize).min(15)].fetch_max((e.mon.cycles_completed - cycles0) as u64, std::sync::atomic::Ordering::Relaxed);
+        }
+        if ok_at.is_none() && (e.mon.cycles_completed - cycles0) as u32 > cycle_bound {
+            let st: Vec<String> = (0..n).map(|i| format!("#{}: live={} running={} slave state {:?}", cfg.rig.periphs[i].addr, e.rig.periph(i).is_live(), e.rig.periph(i).is_running(), e.slaves[i].state)).collect();
+            return Err(("c07.healthy_peripheral_not_recovered.cycles".into(), format!("after {} fault-free DP cycles (bound: max_retry+1+12 = {cycle_bound}): {}", e.mon.cycles_completed - cycles0, st.join(", "))));
         }
         if let Some(s) = ok_at {
             if !(0..n).filter(|i| present(*i)).all(|i| e.rig.periph(i).is_running()) {
                 return Err(("c07.not_stable".into(), format!("a peripheral left data exchange again {steps} steps into the fault-free continuation (first complete at {s})")));
             }
             if steps >= s + 3 * n as u32 {
+                C07_MAX_STEPS.fetch_max(((max_retry as u64) << 32) | s as u64 & 0xffff_ffff, std::sync::atomic::Ordering::Relaxed);
+                let idx = (max_retry as usize).min(15);
+                C07_MAX_BY_RETRY[idx].fetch_max(s as u64, std::sync::atomic::Ordering::Relaxed);
                 return Ok(s);
             }
         } else if steps > budget {
@@ -387,9 +413,49 @@ pub fn c07_continuation(cfg: &Arc<W4Cfg>, acts: &[Act]) -> Result<u32, (String, 
 pub fn c07_silence(cfg: &Arc<W4Cfg>, acts: &[Act]) -> Result<bool, (String, String)> {
     let n = cfg.rig.periphs.len();
     let max_retry = cfg.rig.max_retry as u32;
+    let mut last = Ok(false);
+    // (the master cannot be cloned: every variant re-executes the history and the silence phase)
+    for extra_silent in 0..3u32 {
+        let mut e = match c07_silence_until_offline(cfg, acts)? {
+            Some(e) => e,
+            None => return Ok(false),
+        };
+        // the peripheral stays away for a little longer: one and two offline probes go unanswered as well (an
+        // offline peripheral must keep being probed every cycle — found by a seeded change that let it sit out
+        // max_retry-1 cycles after every unanswered probe)
+        let mut lost = 0;
+        let mut guard = 0;
+        while lost < extra_silent && guard < 20 * (n as u32 + max_retry) {
+            let to0 = matches!(&e.outstanding, Some((0, _)));
+            e.apply(if to0 { Act::ReqLost } else { Act::Answer });
+            guard += 1;
+            if to0 {
+                lost += 1;
+            }
+            if e.dead {
+                break;
+            }
+        }
+        if e.dead {
+            continue;
+        }
+        if lost < extra_silent {
+            return Err(("c07.offline_peripheral_not_probed".into(), format!("peripheral 0 is offline but was probed only {lost} times in {guard} steps")));
+        }
+        last = c07_return(e, n, max_retry);
+        if last.is_err() {
+            return last;
+        }
+    }
+    last
+}
+
+fn c07_silence_until_offline(cfg: &Arc<W4Cfg>, acts: &[Act]) -> Result<Option<Exec>, (String, String)> {
+    let n = cfg.rig.periphs.len();
+    let max_retry = cfg.rig.max_retry as u32;
     let mut e = run_path(cfg, acts);
     if e.dead || !e.rig.periph(0).is_live() {
-        return Ok(false);
+        return Ok(None);
     }
     let mark = e.events_log.len();
     let mut turns_for_0 = 0;
@@ -413,21 +479,34 @@ pub fn c07_silence(cfg: &Arc<W4Cfg>, acts: &[Act]) -> Result<bool, (String, Stri
     if !e.events_log[mark..].iter().any(|(i, ev)| *i == 0 && *ev == PeripheralEvent::Offline) {
         return Err(("c07.no_offline_event".into(), "peripheral 0 went offline without an Offline event".into()));
     }
+    Ok(Some(e))
+}
+
+fn c07_return(mut e: Exec, n: usize, max_retry: u32) -> Result<bool, (String, String)> {
     // the silent slave lost nothing (it simply did not see the requests); now it answers again
     let mark = e.events_log.len();
-    let budget = (n as u32) * (12 + 4 * (max_retry + 1));
-    for _ in 0..budget {
+    // a returning peripheral is probed once per cycle and needs diagnostics, Set_Prm, Chk_Cfg, diagnostics,
+    // Data_Exchange: five requests (= cycles) plus three of slack, whatever the retry limit (nothing is lost any more)
+    let budget = (n as u32) * 8;
+    let cycles0 = e.mon.cycles_completed;
+    for k in 0..budget {
         e.apply(Act::Answer);
         if e.dead {
             let why = e.died_of.clone().unwrap_or_else(|| "harness assumption broken".into());
             let sig = e.died_of.as_ref().map(|d| d.split(' ').next().unwrap().to_string()).unwrap_or_default();
             return Err((format!("c07.recovery_died.{sig}"), format!("branch ended during recovery: {why}")));
         }
+        C07_LAST_K.with(|c| c.set(k));
+        if e.mon.cycles_completed - cycles0 > 10 {
+            return Err(("c07.no_online_configured_after_return.cycles".into(), format!("peripheral 0 answers again for {} DP cycles (bound 10) but Online+Configured+running were not reached", e.mon.cycles_completed - cycles0)));
+        }
         let evs: Vec<PeripheralEvent> = e.events_log[mark..].iter().filter(|(i, _)| *i == 0).map(|x| x.1).collect();
         let on = evs.iter().position(|x| *x == PeripheralEvent::Online);
         let cf = evs.iter().position(|x| *x == PeripheralEvent::Configured);
         if let (Some(a), Some(b)) = (on, cf) {
             if a < b && e.rig.periph(0).is_running() {
+                C07_MAX_RETURN_CYCLES_BY_RETRY[(max_retry as usize).min(15)].fetch_max((e.mon.cycles_completed - cycles0) as u64, std::sync::atomic::Ordering::Relaxed);
+                C07_MAX_RETURN_BY_RETRY[(max_retry as usize).min(15)].fetch_max(C07_LAST_K.with(|c| c.get()) as u64 + 1, std::sync::atomic::Ordering::Relaxed);
                 return Ok(true);
             }
         }
@@ -458,6 +537,12 @@ pub fn run_c07(tier: Tier) -> ! {
         plans.push(Plan { label: "2p".into(), cfg, depth: tier.pick(8, 14), max_states: tier.pick(100_000, 2_000_000), secs: tier.pick(60.0, 2400.0) });
     }
     plans.extend(param_sweep_plans(Mon::C07, std_acts(1, &[0, 8, 16], true), std_acts(2, &[8], true), tier));
+    // larger retry limits with a narrow alphabet (loss runs of any length at any point of the life cycle)
+    for retry in tier.pick(vec![2u8, 4, 8, 15], vec![2, 3, 4, 5, 6, 8, 11, 15]) {
+        let mut cfg = base_cfg(vec![PeriphCfg::simple(9, 2, 1)], Mon::C07, vec![Act::Answer, Act::ReqLost, Act::ReplyLost, Act::PowerCycle]);
+        cfg.rig.max_retry = retry;
+        plans.push(Plan { label: format!("1p loss runs retry{retry}"), cfg, depth: retry as usize + tier.pick(7, 12), max_states: tier.pick(100_000, 2_000_000), secs: tier.pick(60.0, 2400.0) });
+    }
     // many peripherals, some of which do not exist: the stations that are there come up and come back
     // regardless of how many configured stations stay silent and of where they sit in the storage
     // (found by a seeded change: a probe budget per cycle that absent stations in low slots used up)
@@ -507,10 +592,18 @@ pub fn run_c07(tier: Tier) -> ! {
             Err((sig, d)) => report(sig, d, &w.acts, "silence peripheral 0, then let it answer again"),
         }
     });
+    {
+        let a: Vec<u64> = C07_MAX_BY_RETRY.iter().map(|x| x.load(std::sync::atomic::Ordering::Relaxed)).collect();
+        let b: Vec<u64> = C07_MAX_RETURN_BY_RETRY.iter().map(|x| x.load(std::sync::atomic::Ordering::Relaxed)).collect();
+        let c: Vec<u64> = C07_MAX_CYCLES_BY_RETRY.iter().map(|x| x.load(std::sync::atomic::Ordering::Relaxed)).collect();
+        let d: Vec<u64> = C07_MAX_RETURN_CYCLES_BY_RETRY.iter().map(|x| x.load(std::sync::atomic::Ordering::Relaxed)).collect();
+        ctx().note(format!("the same in DP cycles: fault-free continuation {c:?} (bound max_retry+13), after a silent peripheral answered again {d:?} (bound 10)"));
+        ctx().note(format!("largest number of fault-free requests until every present peripheral was back in data exchange, by max_retry_limit (index): {a:?}; after a silent peripheral answered again: {b:?}"));
+    }
     finish_mc(
         t,
-        "BFS over the joint state space of C03 (loss / corruption / power-cycle / fault-flag / user-call histories); from EVERY discovered state two deterministic continuations are executed on the real master: (a) fault-free with a conforming slave — running + DataExchanged within 12+4*(retry+1) requests per peripheral and stable for 3 further cycles; (b) peripheral 0 silent until Offline, then answering again until Online, Configured and running",
-        json!({"one_peripheral_depth": tier.pick(10, 30), "two_peripherals_depth": tier.pick(8, 14), "continuation_budget_per_peripheral": "12+4*(max_retry+1)"}),
+        "BFS over the joint state space of C03 (loss / corruption / power-cycle / fault-flag / user-call histories); from EVERY discovered state two deterministic continuations are executed on the real master: (a) fault-free with a conforming slave — running + DataExchanged within (retry+1)+8 requests per peripheral and (retry+1)+12 DP cycles, stable for 3 further cycles; (b) peripheral 0 silent until Offline, then answering again until Online, Configured and running within 8 requests per peripheral and 10 DP cycles",
+        json!({"one_peripheral_depth": tier.pick(10, 30), "two_peripherals_depth": tier.pick(8, 14), "continuation_budget_per_peripheral": "(max_retry+1)+8; after a silent peripheral returns: 8"}),
         vec!["c07_recovered", "c07_offline_then_back"],
         0,
     )
